@@ -27,7 +27,7 @@ CHECKS["C02"] = {
     "shards": {"quick": 4, "thorough": 16},
     "level": "exploration",
     "technique": "runtime monitoring: event-list oracle (sum/rate/avg/min recomputed from recorded events) over generated ring/window geometries and timestamp histories; constructor predicate checked on a geometry grid",
-    "rule": "cases = (ring n in 1..20 x bucket length in {1,2,3,7,50,100,250,500,1000}) x a servable read window x a non-decreasing event history (gaps from a boundary grid incl. exact multiples of the bucket and of the whole interval and idle gaps of several intervals) with interleaved reads at and after the last write; every 4th case drives a ResourceNode built under a configured geometry through WriteStat/ReadStat under the virtual clock; plus a grid of ~37k (ring, window) geometries for the accept/refuse predicate. Non-trivial iff some read returned a non-zero in-window sum while older (expired) events existed; distinct = distinct (ring size class, bucket length, window/ring ratio, window bucket count, wrapped?, idle-expired?, edge-read classes) resp. (node geometry, generated window)",
+    "rule": "cases = (ring n in 1..20 x bucket length in {1,2,3,7,50,100,250,500,1000}) x a servable read window x a non-decreasing event history (gaps from a boundary grid incl. exact multiples of the bucket and of the whole interval and idle gaps of several intervals) with interleaved reads at and after the last write; every 4th case drives a ResourceNode built under a configured geometry through WriteStat/ReadStat under the virtual clock; plus a grid of ~37k (ring, window) geometries for the accept/refuse predicate. Non-trivial iff some read returned a non-zero in-window sum while older (expired) events existed; distinct = distinct (ring size class, bucket length, window/ring ratio, window bucket count, wrapped?, idle-expired?, edge-read classes) resp. (node geometry, generated window) Once per shard more than 10 000 distinct resources (the documented soft cap) are created before the following cases run.",
     "level_text": "Each read API (count_with_time, sum/qps_with_time, ReadStat sum/qps/qps_previous/avg_rt/min_rt on windows, resource nodes and generated read stats) is compared with values recomputed from the recorded events for hundreds of thousands of (geometry, write time, read time) triples incl. wrap-around and full expiry; exploration.",
     "level_note": "Raw ring reads exactly on a bucket edge may also return the physical value that still contains the bucket of exactly one interval ago (statement-compatible either way, see DESIGN §5 C02); qps_previous is checked only while no in-range bucket was recycled by a later write. LeapArray::new(n, 0) is outside the quantifier.",
     "design_ref": "DESIGN.md §5 C02",
@@ -52,7 +52,7 @@ CHECKS["C04"] = {
     "shards": {"quick": 4, "thorough": 16},
     "level": "exploration",
     "technique": "runtime monitoring: client-boundary ledger (conservation oracle) compared with node statistics after every operation under a virtual clock",
-    "rule": "cases = generated interleavings of build/exit over 2-4 fresh resources, inbound and outbound, batch 1..7, time advances from a boundary grid (0 ms .. 12 s), with isolation / flow / circuit-breaker rules that block some entries; after EVERY operation in-flight, sum/qps of Pass, Block, Complete, Rt and avg_rt are read on every resource node over the 1 s default window and a 10 s generated window, and on the global inbound node (process-long ledger). Non-trivial iff the case has >=1 blocked and >=1 passed entry and spans a window roll-over; distinct = distinct (#resources, #rules per family, inbound?/outbound?, batch>1?, #blocked class)",
+    "rule": "cases = generated interleavings of build/exit over 2-4 fresh resources, inbound and outbound, batch 1..7, time advances from a boundary grid (0 ms .. 12 s), with isolation / flow / circuit-breaker rules that block some entries; after EVERY operation in-flight, sum/qps of Pass, Block, Complete, Rt and avg_rt are read on every resource node over the 1 s default window and a 10 s generated window, and on the global inbound node (process-long ledger). Non-trivial iff the case has >=1 blocked and >=1 passed entry and spans a window roll-over; distinct = distinct (#resources, #rules per family, inbound?/outbound?, batch>1?, #blocked class) Once per shard more than 10 000 distinct resources are created before the following cases; every 300 cases the empty resource name is probed (accounted in full, or refused and nothing recorded).",
     "level_text": "Conservation between what the caller observed (Ok/Err of build, exit calls) and what the statistics report, checked after every single operation on thousands of histories; exploration.",
     "level_note": "Which entries get blocked is taken from the observed build() result (C01/C03/C05 decide that); this check decides only the accounting.",
     "design_ref": "DESIGN.md §5 C04",
@@ -64,7 +64,7 @@ CHECKS["C05"] = {
     "shards": {"quick": 4, "thorough": 16},
     "level": "exploration",
     "technique": "runtime monitoring: in-flight ledger per resource and per parameter value as decision oracle, cap invariant asserted on the live node after every operation, rejection reports parsed and checked",
-    "rule": "cases = generated build/exit interleavings (up to ~16 simultaneously open entries, batch 1..3) against 1-3 isolation rules (thresholds 1..6) and/or 1-2 hotspot concurrency rules (positional index -3..3, keyed parameter, overrides, capacity default/4/8, values a..d, missing/short argument lists). Non-trivial iff something was rejected and (capacity freed by an exit was re-used by the very next request, or a hotspot rejection happened); distinct = distinct (#iso rules, #hotspot rules, rejection kinds, reuse-after-exit?, missing parameter?, key-over-index?, negative index?, #overrides)",
+    "rule": "cases = generated build/exit interleavings (up to ~16 simultaneously open entries, batch 1..3) against 1-3 isolation rules (thresholds 1..6) and/or 1-2 hotspot concurrency rules (positional index -3..3, keyed parameter, overrides, capacity default/4/8, values a..d, missing/short argument lists). Non-trivial iff something was rejected and (capacity freed by an exit was re-used by the very next request, or a hotspot rejection happened); distinct = distinct (#iso rules, #hotspot rules, rejection kinds, reuse-after-exit?, missing parameter?, key-over-index?, negative index?, #overrides) One op in ~40 removes the isolation rules by an empty load-for-resource and loads equal rules again (caps must hold as before). Parameter values include the empty string and a blank.",
     "level_text": "Every admission decision is compared with the cap arithmetic from the statement; for hotspot batches >1 only the implications common to both readings of 'batch' are asserted; every rejection must carry the right block type and name a rule that is really exceeded; exploration.",
     "level_note": "Hotspot thresholds and overrides are kept >= 1 (quantifier). When isolation and hotspot both reject, the report of the later slot (hotspot) is accepted.",
     "design_ref": "DESIGN.md §5 C05",
@@ -88,7 +88,7 @@ CHECKS["C07"] = {
     "shards": {"quick": 4, "thorough": 16},
     "level": "exploration",
     "technique": "runtime monitoring: trace specification over (arrival, decision, start instant) observed at Controller::perform_checking and at EntryBuilder::build() bracketed by virtual-clock readings (virtual sleeps advance the clock)",
-    "rule": "cases = flow throttling rules (rate 0..1000 incl. fractional per 100..10000 ms, max queueing 0..2000 ms) and hotspot QPS throttling rules (rate 0..1000 per 1..3 s, 1-3 parameter values), each driven either through perform_checking (no sleeping: bursts at one instant) or through build() (caller really delayed); arrivals placed at the same instant, exactly on / 1-2 clock units around the next free slot, exactly on / around the instant where the wait equals the maximum, after short and long gaps; batch 1..5. Non-trivial iff the case contains a wait, a rejection and an immediate pass; distinct = distinct (family, observation point, rate, interval, max queueing, burst?, edge arrival?, batch>1?)",
+    "rule": "cases = flow throttling rules (rate 0..1000 incl. fractional per 100..10000 ms, max queueing 0..2000 ms) and hotspot QPS throttling rules (rate 0..1000 per 1..3 s, 1-3 parameter values), each driven either through perform_checking (no sleeping: bursts at one instant) or through build() (caller really delayed); arrivals placed at the same instant, exactly on / 1-2 clock units around the next free slot, exactly on / around the instant where the wait equals the maximum, after short and long gaps; batch 1..5. Non-trivial iff the case contains a wait, a rejection and an immediate pass; distinct = distinct (family, observation point, rate, interval, max queueing, burst?, edge arrival?, batch>1?) A third of the flow cases replace the rules mid-history by an equal throttling rule (new id) plus a lax reject rule (the schedule must continue); every 6th case is a multi-rule case (2-3 throttling rules on one resource, loaded together or appended).",
     "level_text": "For every pair of consecutive admissions the start instants must be >= batch*interval/rate apart, no admitted request is held longer than the maximum queueing time, a rejection must be justified by a wait beyond it (or threshold 0 / batch above threshold), and build() must not return before the slot; exploration.",
     "level_note": "Slack: 2 ns for flow (float to integer truncation), 1 ms for hotspot (the rule works in whole milliseconds); at wait == max a hotspot rule may queue or reject, a flow rule must queue. TokenResult::Wait is read as nanoseconds, as documented.",
     "design_ref": "DESIGN.md §5 C07",
@@ -112,7 +112,7 @@ CHECKS["C09"] = {
     "shards": {"quick": 4, "thorough": 16},
     "level": "exploration",
     "technique": "runtime monitoring: decision oracle written from the statement, applied to boundary probes whose observed metric values come from real inbound histories (virtual clock) and injected load/CPU readings; rejection reports parsed and checked",
-    "rule": "cases = (inbound history: 0..8 entries left in flight, 0..6 completions with chosen age, response time 0..2000 ms and batch 1..4, so that QPS / concurrency / avg RT / min RT / best completion rate vary) x injected load in {0,.125,.25,.5,.75,1} and CPU in {0,.25,.5,12.5,50,99} x 1-3 system rules of distinct metric types, each NoAdaptive or BBR, with its threshold placed below / exactly on / above the observed value; then one inbound (5/6) or outbound (1/6) probe entry. Every case is a boundary probe (non-trivial); distinct = distinct (per-rule (metric, strategy, position), inbound?, expected rejection?, in-flight > 1?, in-flight > estimated capacity?, completions in window?)",
+    "rule": "cases = (inbound history: 0..8 entries left in flight, 0..6 completions with chosen age, response time 0..2000 ms and batch 1..4, so that QPS / concurrency / avg RT / min RT / best completion rate vary) x injected load in {0,.125,.25,.5,.75,1} and CPU in {0,.25,.5,12.5,50,99} x 1-3 system rules of distinct metric types, each NoAdaptive or BBR, with its threshold placed below / exactly on / above the observed value; then one inbound (5/6) or outbound (1/6) probe entry. Every case is a boundary probe (non-trivial); distinct = distinct (per-rule (metric, strategy, position), inbound?, expected rejection?, in-flight > 1?, in-flight > estimated capacity?, completions in window?) One case in three has several rules on the same metric type; once per shard more than 10 000 distinct resources are created before the following cases.",
     "level_text": "The probe must be rejected iff some rule trips per the statement (QPS/concurrency/avg RT at >=; load/CPU at > and, under BBR, only with more than one request in flight and in-flight above best completion rate x min RT); the rejection must be a SystemFlow block naming a tripping rule and carrying the observed value; outbound probes are never rejected; exploration.",
     "level_note": "Observed values are computed from the harness's own ledger of the history and cross-checked against the node API before every probe; equality cases use values exactly representable in f32/f64.",
     "design_ref": "DESIGN.md §5 C09",
